@@ -158,6 +158,13 @@ func RunDeclShapes(run *ev.Run) int {
 			}
 			mu.Lock()
 			defer mu.Unlock()
+			if os.Getenv("VERIF_CLASS_OUTCOMES") != "" { // development aid
+				res := fmt.Sprint("exit=", r.Exit)
+				if built != nil {
+					res += fmt.Sprint(" build=", built.Exit)
+				}
+				run.Outcome("declclass:" + cls + " " + res)
+			}
 			switch {
 			case r.Timeout:
 				run.Outcome("decl:hang")
